@@ -105,6 +105,35 @@ let () = iter_lines (fun line ->
   | ["cap"; pol; mc; log] ->
     let bc = two_pow (z log) in
     Printf.printf "%s %s\n" (sz (calc_capacity (z pol) (z mc) bc)) (sz (shift_fn (z pol) (z mc) bc))
+  | "n1" :: "41" :: n :: sk :: ops ->
+    (* the generated BucketLimP1 AddCrt / Remove (item pointer = scalar, pool blocks = fresh non-null values) *)
+    let mc = z n and skip = (sk = "1") in
+    let (st0, p0) = Gen_LimP1_ops.pvSet (z "0") (z "0") (z "0") (Gen_LimP1_ops.pvGetMemPoolIndex_of skip (z "1")) (z "0") in
+    let st = ref st0 and ptr = ref p0 in
+    let next_mem = ref 1000 in
+    let buf = Buffer.create 64 in
+    Buffer.add_string buf (sz !st);
+    let b2 b = if b then "1" else "0" in
+    let nn p = if int_of_z p = 0 then "0" else "1" in
+    List.iter (fun o ->
+      let arg = if String.length o > 1 then z (String.sub o 1 (String.length o - 1)) else z "0" in
+      let did = ref true in
+      (match o.[0] with
+       | 'a' -> if Gen_LimP1_ops.coq_IsFull mc !st !ptr then did := false else begin
+                  next_mem := !next_mem + 1000;
+                  let m = z (string_of_int !next_mem) in
+                  (match Gen_LimP1_ops.coq_AddCrt skip !st !ptr m m with
+                   | GenPrelude.Ok ((pos, a), p) -> st := a; ptr := p;
+                     Buffer.add_string buf (" a" ^ sz a ^ ":" ^ nn p ^ ":" ^ Z.to_string (Z.sub (zarith_of_z pos) (zarith_of_z p)))
+                   | _ -> Buffer.add_string buf " a!") end
+       | 'r' -> if Z.geq (zarith_of_z arg) (zarith_of_z (Gen_LimP1_ops.pvGetCount !st !ptr)) then did := false else
+                  (match Gen_LimP1_ops.coq_Remove skip mc !st !ptr (z_of_zarith (Z.add (zarith_of_z !ptr) (zarith_of_z arg))) with
+                   | GenPrelude.Ok ((r, a), p) -> st := a; ptr := p;
+                     Buffer.add_string buf (" r" ^ sz a ^ ":" ^ nn p ^ ":" ^ (if int_of_z r = 0 then "n" else Z.to_string (Z.sub (zarith_of_z r) (zarith_of_z p))))
+                   | _ -> Buffer.add_string buf " r!")
+       | _ -> did := false);
+      if !did then Buffer.add_string buf (" f" ^ b2 (Gen_LimP1_ops.coq_IsFull mc !st !ptr) ^ b2 (Gen_LimP1_ops.coq_WasFull skip mc !st !ptr))) ops;
+    print_endline (Buffer.contents buf)
   | "n1" :: "40" :: hh :: ops ->
     (* the generated BucketLimP4 AddCrt / Remove / Clear (pointer state = two scalars, pool memories = opaque non-null values) *)
     let h = z hh and mm = z "2" in
